@@ -418,6 +418,8 @@ func AddSynDocs(r *Rng, b Batch, idbase string) Batch {
 			twins := r.Chance(8) // exactly the case twins
 			if twins {
 				nd = 2
+			} else if r.Chance(9) {
+				nd = 0 // a synonym field that defines nothing (a thesaurus without terms)
 			}
 			for q := 0; q < nd; q++ {
 				term := SynVocab[r.Intn(len(SynVocab))]
